@@ -6,7 +6,9 @@ automaton written from the property statement (pbmon/oracle/bploop.py holds the 
 and the hostile in-place mutations).  Initial states range from plain python/numpy values to dicts of real library
 objects; "every replicate starts from a state equal to the initial one" is judged by an observable-equality walk
 (public properties + read-only behavioural probes, C20.fresh.library names the class whose copy differs) and by an
-alias walk over the private fields (C20.fresh.noalias).
+alias walk over the private fields (C20.fresh.noalias).  About a third of the library objects of a state are instances of a
+user's subclass of their library class (same constructor, a class attribute, one overridden query method, one or two levels
+deep): C20.fresh.class demands that every object of a replicate's first state has the class of its counterpart.
 """
 import contextlib
 import copy
@@ -23,7 +25,8 @@ NSHARDS = {"quick": 4, "thorough": 16}
 CLAUSES = {
     "C20.order": 20000, "C20.order.complete": 800, "C20.time": 20000,
     "C20.chain": 8000, "C20.chain.mcfg": 2000, "C20.log.state": 8000, "C20.lbook.rep": 8000,
-    "C20.fresh.equal": 1500, "C20.fresh.noalias": 3000, "C20.fresh.library": 300, "C20.start.unmodified": 2000,
+    "C20.fresh.equal": 1500, "C20.fresh.noalias": 3000, "C20.fresh.library": 300, "C20.fresh.class": 150,
+    "C20.start.unmodified": 2000,
     "C20.evolve.returns": 800,
 }
 HOOKS_REQUIRED = ["operator/logbook events", "evolve calls", "later replicates after in-place mutation",
@@ -32,14 +35,18 @@ HOOKS_REQUIRED = ["operator/logbook events", "evolve calls", "later replicates a
                   "cases with a manual history before evolve()", "cases with dict-subclass containers",
                   "cases with int-subclass / numpy integer arguments", "pselect calls returning an empty mating configuration",
                   "evolve cases with loginit given as numpy.bool_ or 1/0",
-                  "cases with operators implementing several operator interfaces"]
+                  "cases with operators implementing several operator interfaces",
+                  "cases whose initial state holds instances of user subclasses of library classes"]
 RULE = ("one case = one programme built from a seeded initial state (classes: empty, scalars, nested lists/dicts/sets, "
         "numpy arrays incl. views/object arrays/NaN, plain objects, cross-container aliasing and cycles, non-string keys, "
         "a pair of pybrops matrices, and 'library' states whose five dicts hold what the containers are documented to hold: "
         "phased and unphased genotype matrices grouped along taxa only / variants only / both / neither, lists of matrices, "
         "pandas phenotype frames with NaN, the three breeding-value matrix classes, additive / additive+dominance (non-zero u_d) / "
         "rrBLUP models with u_misc and hyperparameters, standard and extended genetic maps (grouped or not, with or without "
-        "interpolators), coancestry matrices, progeny variance matrices, phenotyping protocols with their own generator), initialised through the constructor, the setters, the initop inside evolve() or an explicit "
+        "interpolators), coancestry matrices, progeny variance matrices, phenotyping protocols with their own generator; about a third of these objects - and of the matrices of the 'pybrops' class - are instances of a USER'S SUBCLASS "
+        "of their library class with the same constructor, a class attribute and one overridden query method (breeding values on another "
+        "scale, frequency of the other allele, rounded trait means, interpolation in centimorgans), one or two levels deep, also below "
+        "rrBLUPModel0 / the additive+dominance model and as the model inside a phenotyping protocol), initialised through the constructor, the setters, the initop inside evolve() or an explicit "
         "initialize(); operator behaviour per run: return inputs / mutate in place (insert, delete, clear, grow lists, "
         "overwrite arrays) / return deep copies (optionally trashing the inputs) / return new dicts sharing nested objects / "
         "mixed per call incl. permuted or aliased returns and late mutation of containers of earlier replicates; logbook "
@@ -75,6 +82,9 @@ ASSUME = ["the time index is 0 at the initial evaluation of a replicate and g in
           "and group index metadata, parameters) and the read-only behavioural probes of pbmon/oracle/bploop.py (is_grouped_*(), afreq(), "
           "unscale(), gegv_numpy/gebv_numpy on a fixed marker matrix, genetic-map interpolation) agree; pandas frames by columns, dtypes, "
           "index and cell values (NaN == NaN)",
+          "an instance of a user's subclass of a library class (same constructor, overridden methods, class attributes; no instance "
+          "attributes of its own) is a valid member of a state container; a state equal to the initial one holds an instance of the SAME "
+          "class there (an instance of the base class answers differently): C20.fresh.class, and its fields/probes under C20.fresh.library",
           "an evolve() that raises while plain copy.deepcopy of the stored initial state raises too (the harness edited a library object of "
           "the initial state in place into something its class refuses to rebuild) is counted as raised, not as a violation",
           "dict subclasses are valid state containers and int subclasses valid t_max/t_cur values (the documented checks are "
@@ -136,6 +146,7 @@ class Monitor(object):
         self.typecls = "plain dict containers, int arguments"
         self.hist = ""              # "/after manual ..." once the caller worked on the programme by hand before evolve()
         self.inplace_now = False
+        self.gsub = None
 
     # ---- expectations -------------------------------------------------------------------------------
     def expect_evolve(self, nrep, ngen, loginit, rep0):
@@ -230,21 +241,32 @@ class Monitor(object):
         d = O.dgs(conts, self.current, probe=True)
         bad = [O.NAMES[i] for i in range(5) if d[i] != self.S0[i]]
         ssink = self.check_start()
-        ld = None
+        ld, wrong = None, []
         if self.haslib and self.start_ok:
             bp = self.bp
-            ld = O.lib_diff([bp.start_genome, bp.start_geno, bp.start_pheno, bp.start_bval, bp.start_gmod], conts)
+            start = [bp.start_genome, bp.start_geno, bp.start_pheno, bp.start_bval, bp.start_gmod]
+            info = {}
+            ld = O.lib_diff(start, conts, info)
             if ld is None:      # the states differ outside their library objects: C20.fresh.equal says so
                 ctx.sumnote("first states not comparable object by object")
             else:
+                wrong = [(c, f) for c, f in ld if "__class__" in f]
+                nsub = info["user_subclass_instances"]
+                if nsub or wrong:
+                    ctx.sumnote("user-subclass instances compared with their counterpart in a first state", nsub)
+                    ctx.check("C20.fresh.class", not wrong, SITE + "reset",
+                              "each object of a replicate's first state is an instance of the class of its counterpart in the stored initial state",
+                              "copy of " + ", ".join(sorted({c for c, _ in wrong})) if wrong else "instances of user subclasses of library classes",
+                              witness=self.witness(replicate=exp.r, differing_objects=[[c, f] for c, f in wrong][:6]), coords=self.coords)
+                    ld = [(c, f) for c, f in ld if "__class__" not in f]     # whatever else differs there follows from the class
                 ctx.check("C20.fresh.library", not ld, SITE + "reset",
                           "each library object of a replicate's first state is observably equal (fields and behaviour) to its counterpart in the stored initial state",
                           "copy of " + ", ".join(sorted({c for c, _ in ld})) if ld else "library objects",
                           witness=self.witness(replicate=exp.r, differing_objects=[[c, f] for c, f in ld][:6]), coords=self.coords)
-        if ld:      # the whole-state comparison fails for the same reason: one mechanism, one input class
+        if ld or wrong:      # the whole-state comparison fails for the same reason: one mechanism, one input class
             icls = "state holding library objects whose copies differ"
         ctx.check("C20.fresh.equal", not bad, SITE + "reset", "a replicate's first step receives a state equal to the initial one", icls,
-                  witness=self.witness(differing=bad, replicate=exp.r, library_objects=[[c, f] for c, f in (ld or [])][:6],
+                  witness=self.witness(differing=bad, replicate=exp.r, library_objects=[[c, f] for c, f in (wrong + (ld or []))][:6],
                                        got=[O.brief(conts[i]) for i in range(5) if d[i] != self.S0[i]][:2],
                                        initial=[self.S0brief[i] for i in range(5) if d[i] != self.S0[i]][:2]), coords=self.coords)
         cur = set(self.current)
@@ -684,7 +706,7 @@ def _prelude(ctx, mon, bp, lb, initop, gp, plan):
                 ctx.ok("C20.evolve.returns")
                 mon.end_call("advance", lb.rep, "reset()+advance()")
             elif act == "assign start_* (new objects)":
-                S = O.gen_state(gp, O.STATE_CLASSES[int(gp.integers(1, len(O.STATE_CLASSES)))])
+                S = O.gen_state(gp, O.STATE_CLASSES[int(gp.integers(1, len(O.STATE_CLASSES)))], mon.gsub)
                 S[int(gp.integers(5))][("installed", n)] = [n]
                 S = O.wrap_state(mon.contkind, S, gp)
                 _set_initial(mon, S)
@@ -702,7 +724,7 @@ def _prelude(ctx, mon, bp, lb, initop, gp, plan):
                     O.mutate(gp, getattr(bp, names[int(gp.integers(5))]), ("manual-start", n))
                 _set_initial(mon, [getattr(bp, x) for x in names])
             elif act == "initialize() again":
-                S = O.gen_state(gp, O.STATE_CLASSES[int(gp.integers(1, len(O.STATE_CLASSES)))])
+                S = O.gen_state(gp, O.STATE_CLASSES[int(gp.integers(1, len(O.STATE_CLASSES)))], mon.gsub)
                 S[int(gp.integers(5))][("re-initialised", n)] = [n]
                 S = O.wrap_state(mon.contkind, S, gp)
                 initop.state = S
@@ -746,7 +768,8 @@ def one_case(ctx, c):
     gt = ctx.rng("types", c)
     contkind = "dict" if gt.random() < 0.7 else O.CONTAINER_KINDS[int(gt.integers(0, len(O.CONTAINER_KINDS)))]
     intkind = "int" if gt.random() < 0.75 else ["int subclass", "numpy integer counts"][int(gt.integers(0, 2))]
-    S = O.wrap_state(contkind, O.gen_state(g, scls), gt)
+    gsub = ctx.rng("user subclasses", c)
+    S = O.wrap_state(contkind, O.gen_state(g, scls, gsub), gt)
     S0 = O.dgs(S, probe=True)
     params = {"case": c, "operators": beh, "init": init, "state_class": scls, "scenario": scen, "nrep": nrep, "ngen": ngen,
               "loginit": loginit, "logbook_mutates": log_mutates, "t_max": t_max, "manual_history_before": plan,
@@ -759,7 +782,11 @@ def one_case(ctx, c):
     mon = Monitor(ctx, coords, beh, params)
     mon.S0, mon.S0brief = S0, [O.brief(s) for s in S]
     mon.haslib = bool(O.lib_index(S)[1])
-    mon.contkind, mon.intkind = contkind, intkind
+    mon.contkind, mon.intkind, mon.gsub = contkind, intkind, gsub
+    nsub = O.count_user_subclass_instances(S) if mon.haslib else 0
+    params["user_subclass_instances"] = nsub
+    if nsub:
+        ctx.hook("cases whose initial state holds instances of user subclasses of library classes")
     # coarse input class for "the call raised" keys: the unusual type that is present (containers first)
     mon.typecls = ("dict-subclass containers" if contkind != "dict" else
                    (intkind + " arguments" if intkind != "int" else "plain dict containers, int arguments"))
